@@ -32,7 +32,7 @@ SIMPLE_KINDS = [
     'vallist', 'valdict', 'valcall', 'valawait', 'valsemi', 'valtuple_ml', 'valbytes', 'printblank',
     'tstr_blank', 'tstr_col0_dq', 'classdeco', 'tryfinally', 'forelse_print', 'genexpr', 'comment_after',
     'stdout_ref', 'stdout_write_bound', 'tstr_trailing_ws', 'print_inline_directive', 'val_after_inline_directive',
-    'val_with_inline_directive', 'print_indented', 'tstr_other_quotes',
+    'val_with_inline_directive', 'print_indented', 'tstr_other_quotes', 'classdeco_after_inline_directive',
 ]
 
 
@@ -114,6 +114,12 @@ def make_group(k, kind):
     elif kind == 'classdeco':
         L = ['def cd{}(cls):'.format(k), '    cls.tag = {}'.format(k), '    return cls', '@cd{}'.format(k),
              'class K{}:'.format(k), '    pass', 'T.append(K{}.tag)'.format(k)]
+    elif kind == 'classdeco_after_inline_directive':
+        # the part cut made by an inline directive falls right before the '@' line of a decorated class (and of a function)
+        L = ['def cd{}(cls):'.format(k), '    cls.tag = {}'.format(k), '    return cls',
+             'z{} = ({} or 1)  # xdoctest: +ELLIPSIS'.format(k, t), '@cd{}'.format(k),
+             'class K{}:'.format(k), '    pass', 'T.append(K{}.tag)  # doctest: +ELLIPSIS'.format(k),
+             '@cd{}'.format(k), 'def h{}():'.format(k), '    pass', 'T.append(h{}.tag)'.format(k)]
     elif kind == 'semi':
         L = ['a{0} = 1; {1}; b{0} = 2'.format(k, t)]
     elif kind == 'comment':
